@@ -48,4 +48,4 @@ def lemmas():
 def bounded(tier, seed, pr):
     from pyvc.boundedrun import run_bounded
 
-    return [run_bounded(pr, "b_corpus.py", "corpus_environment_variants_and_pinned_signatures", args={"mode": "c03"}, timeout=1500), run_bounded(pr, "b_retrieve.py", "resolution_vs_case_table_exact", args={"mode": "exact"})]
+    return [run_bounded(pr, "b_corpus.py", "corpus_environment_variants_and_pinned_signatures", args={"mode": "c03"}, timeout=1500), run_bounded(pr, "b_retrieve.py", "resolution_vs_case_table_exact", args={"mode": "exact"}), run_bounded(pr, "b_notebook.py", "notebook_histories_vs_fresh_kernel")]
